@@ -22,7 +22,7 @@ from vlib.machines import Machine
 from vlib.runner import HarnessError, Info, Outside, Reject, Sub, Violation  # noqa: F401
 
 from xdsl.dialects import arith, llvm
-from xdsl.dialects.builtin import StringAttr
+from xdsl.dialects.builtin import IntegerAttr, StringAttr
 
 from snaxc.util.snax_memory import SnaxMemory
 
@@ -40,7 +40,9 @@ RULE = (
     "views (memref.subview, snax.layout_cast, memref.memory_space_cast, memref->memref unrealized casts, chains), opaque test.op uses at "
     "top level and nested in scf.for/scf.if (depth <= 3), memref-valued scf.if results, late uses through views, optionally returning a "
     "buffer; memory descriptions (real L1/Test or generated start/capacity, also starts that are not multiples of the alignments) are "
-    "registered on a private AccContext; modes static, minimalloc, auto. Addresses are read back from the emitted descriptors. "
+    "registered on a private AccContext; modes static, minimalloc, auto; the allocated memref has no layout or a gapped tiled-strided "
+    "layout with offset (size = bytes the layout needs); in 1 of 6 cases the allocs are written as memref.alloc and go through "
+    "memref-to-snax + canonicalize first. Addresses are read back from the emitted descriptors. "
     "Non-trivial: at least two buffers of one memory with intersecting true lifetimes and at least one buffer whose last use is through a "
     "view or nested in control flow; distinct by recipe hash."
 )
@@ -314,6 +316,28 @@ def prop_place(r):
     mod = parse(built.text, ctx)
     mod.verify()
     func = next(o for o in mod.body.block.ops if o.name == "func.func")
+    bufs = built.bufs
+    nb = len(bufs)
+    any_dyn = any(b["dyn"] for b in bufs)
+    text_before = built.text
+    front = bool(r.get("front"))
+    if front:
+        # the order snaxc uses: memref-to-snax, canonicalize (folds the size computation to a constant), snax-allocate
+        try:
+            run_pass(mod, "memref-to-snax", ctx=ctx)
+            mod.verify()
+        except Exception as e:  # noqa: BLE001
+            raise Violation(f"pipeline:memref-to-snax-raises:{type(e).__name__}", dict(error=repr(e)[:300], before=text_before))
+        allocs = [o for o in func.body.block.ops if o.name == "snax.alloc"]
+        if len(allocs) != nb:
+            raise Reject("pipeline: memref-to-snax did not convert every alloc")
+        for k, a in enumerate(allocs):
+            next(iter(a.results[0].uses)).operation.attributes["c11.buf"] = IntegerAttr(k, 64)
+        try:
+            run_pass(mod, "canonicalize", ctx=ctx)
+            mod.verify()
+        except Exception as e:  # noqa: BLE001  (xDSL's pass, not under test)
+            raise Reject(f"pipeline: canonicalize raised {type(e).__name__}")
     casts = {}
     size_vals = {}
     for op in func.body.block.ops:
@@ -321,10 +345,16 @@ def prop_place(r):
             k = op.attributes["c11.buf"].value.data
             casts[k] = op
             size_vals[k] = op.operands[0].owner.operands[0]
-    bufs = built.bufs
-    nb = len(bufs)
-    any_dyn = any(b["dyn"] for b in bufs)
-    text_before = built.text
+    if front:
+        if len(casts) != nb:
+            raise Reject("pipeline: canonicalize removed the cast of an unused buffer")
+        for b in bufs:
+            c = _const_of(size_vals[b["k"]])
+            if c is None:
+                raise Reject("pipeline: size computation not folded to a constant")
+            if c < b["size"]:
+                raise Violation("pipeline:folded-size-smaller-than-the-layout-needs",
+                                dict(buffer=b["k"], folded=c, needed=b["size"], before=text_before, after=to_text(mod)))
 
     # ---- reference liveness (recipe level)
     n_t = built.n_stmts  # index of the terminator
@@ -384,6 +414,8 @@ def prop_place(r):
             if any(mdesc["start"] % a for a in GC.ALIGNS):
                 base_cls.append("mem:start-unaligned")
 
+    if front:
+        base_cls.append("front:memref-to-snax+canonicalize")
     # ---- static mode: the documented refusal must happen exactly when the bump allocation does not fit
     if mode == "static" and not any_dyn:
         if raised_full is not None:
@@ -551,7 +583,7 @@ def prop_place(r):
     nested_last = False
     for k in range(nb):
         lt = last_true[k]
-        if lt is not None and lt < n_t and r["stmts"][lt]["op"] in ("for", "if"):
+        if lt is not None and lt < n_t and built.stmts[lt]["op"] in ("for", "if"):
             nested_last = True
     cls = list(base_cls)
     if pairs:
